@@ -397,3 +397,52 @@ class MappingLoadSerial(Spec):
 
 
 SPECS += [MappingGetTid, MappingLoadSerial]
+
+
+class MappingTpcAbort(Spec):
+    """MappingStorage.tpc_abort (C05): for the transaction in progress the storage forgets it and frees the commit
+    lock (exactly once: the next tpc_begin can proceed); the committed revisions are not touched (the staged data
+    live in `_tdata`, which only tpc_finish reads and the next tpc_begin replaces).  For any OTHER transaction the
+    call changes nothing at all - in particular it does not take the commit lock away from its holder."""
+    func = MS + '.tpc_abort'
+    props = ('C05',)
+    cases = ('same', 'other', 'idle')
+
+    def setup(self, c, case=None):
+        lock = prims.new_lock(c, 'MappingStorage._lock', reentrant=True, held=0)
+        clock = prims.new_lock(c, 'MappingStorage._commit_lock', reentrant=False, held=0 if case == 'idle' else 1)
+        txn = NONE if case == 'idle' else c.fresh_opaque('transaction')
+        data = c.new_obj('oidmap', None, {}, {'tree_ref': None, 'name': '_data'})
+        me = inst(c, MS, _data=data, _lock=lock, _commit_lock=clock, _opened=VBool(True), _transaction=txn)
+        t = txn if case == 'same' else c.fresh_opaque('other_transaction')
+        if case == 'other':
+            c.assume(t.t != txn.t)
+        c.ghost['ab'] = {'lock': lock, 'clock': clock, 'me': me, 'txn': txn}
+        return {'self': me, 'transaction': t}
+
+    def modifies(self, c, E):
+        g = c.ghost['ab']
+        if E['transaction'] is g['txn']:
+            return {(g['me'].id, '_transaction'), (g['clock'].id, 'held')}
+        return set()
+
+    def outcomes(self, c, E):
+        g = c.ghost['ab']
+        mine = E['transaction'] is g['txn']
+        held0 = c.obj(g['clock']).f['held']
+
+        def post(cc, E, r):
+            cur = cc.obj(g['me']).f['_transaction']
+            held = cc.obj(g['clock']).f['held']
+            out = [('lock-released', cc.obj(g['lock']).f['held'] == 0), ('returns-None', isinstance(r, VNone))]
+            if mine:
+                out += [('transaction-forgotten', isinstance(cur, VNone)),
+                        ('commit-lock-free-for-the-next-transaction', held == 0)]
+            else:
+                out += [('transaction-in-progress-kept', cur is g['txn']),
+                        ('commit-lock-stays-with-its-holder', held == held0)]
+            return out
+        return [Outcome('ok', post=post, result=lambda cc, E: NONE)]
+
+
+SPECS.append(MappingTpcAbort)
